@@ -54,6 +54,10 @@ THEOREMS = [
     "OllamaVerif.C06.defrag_abs_perm",
     "OllamaVerif.C06.placeBase_abs_perm",
     "OllamaVerif.Causal.defragCore_perm",
+    "OllamaVerif.Causal.defragCore_compact",
+    "OllamaVerif.Causal.defragCore_freeCount",
+    "OllamaVerif.Causal.findStart_compact_none",
+    "OllamaVerif.C06.full_only_without_room",
     "OllamaVerif.C06.startForward_put_abs_perm",
     "OllamaVerif.C06.forward_abs_perm",
     "OllamaVerif.C06.slideSeq_abs",
